@@ -46,6 +46,16 @@ def check(ctx):
                 check_filter(ctx, tu, f, ma)
             elif k == 'CallbackListBase::operator()':
                 check_cancontinue(ctx, tu, f)
+            elif k in ('MixinFilter::appendFilter', 'MixinHeterFilter::appendFilter', 'MixinFilter::removeFilter', 'MixinHeterFilter::removeFilter'):
+                want = 'append' if f.name == 'appendFilter' else 'remove'
+                calls = [n for n in f.calls() if (f.callee(n) or {}).get('name') == want and f.call_obj(n) and path(f, f.call_obj(n)) == ('this', '.filterList')]
+                ok = len(calls) == 1
+                if ok:
+                    a = f.call_args(calls[0])
+                    ok = len(a) == 1 and arg_var(f, a[0], allow_conv=True) == f.params[0]['id']
+                    r = f.return_nodes()
+                    ok = ok and len(r) == 1 and calls[0] in ([f.value_source(f.kids(r[0])[0])] + f.descendants(f.kids(r[0])[0]))
+                ctx.ob('C12.F3', f, '%s is exactly %s on the filter list (filters are ordinary callback-list members: order, removal)' % (f.name, want), ok)
             elif k == 'ConditionalFunctor::operator()':
                 check_condfunctor(ctx, tu, f, ma)
             elif k == 'ArgumentAdapter::operator()':
